@@ -22,7 +22,8 @@ the `xact_t *` the C++ compares (`post->xact`).
 Valuation: `value` is what the report's amount expression (`amount_expr`, e.g.
 `rounded(cost)` under -B) yields for the posting; calc_posts and
 collapse_posts accumulate it (post_t::add_to_value), while subtotal_posts
-accumulates the raw `post.amount` (filters.cc 902).  Every theorem holds for
+accumulates the raw `post.amount` – or the compound value of a
+posting handed down by another subtotalling handler (filters.cc 907-909).  Every theorem holds for
 every assignment of `value`s.
 
 The comparison operators of the truncation window, the sort algorithm and the
@@ -284,14 +285,20 @@ deriving DecidableEq, Repr
 
 /-! ### subtotal_posts -/
 
-/-- What `value_t amount(post.amount)` (filters.cc 902) sees: a posting generated
-    by an upstream handler for a multi-commodity value carries that value in
-    `xdata().compound_value` and its `post.amount` is a null amount. -/
-def subAmt (p : RPost) : Option Value :=
-  match p.amount with
-  | .bal _ => none
-  | .int _ => none      -- the 0 a null-amount entry is reported as (such a posting's `post.amount` is null again)
-  | v => some v
+/-- What `value_t amount(…)` (filters.cc 907-909) takes from a posting.  A posting
+    generated by an upstream handler for a multi-commodity value carries that
+    value in `xdata().compound_value` and its `post.amount` is a null amount:
+    with `readsCompound` the compound value is taken, without it (the code before
+    the fix 08839e9) the null amount, here `none`. -/
+def subAmtWith (readsCompound : Bool) (p : RPost) : Option Value :=
+  if readsCompound then some p.amount
+  else match p.amount with
+    | .bal _ => none
+    | .int _ => none      -- the 0 a null-amount entry is reported as (such a posting's `post.amount` is null again)
+    | v => some v
+
+/-- … as the source reads it now (Gen.Regroup.subtotalReadsCompound) -/
+def subAmt (p : RPost) : Option Value := subAmtWith Gen.Regroup.subtotalReadsCompound p
 
 structure AcctVal where
   value : Value
